@@ -14,7 +14,7 @@
 #endif
 
 /* ---- statics of the real function (hoisted to file scope by the extraction rule so that they can be named here) ---- */
-extern char cv_delim[3][8];
+extern char cv_delim[3][10];
 
 /* ---- ghosts ---- */
 const char *cv_base;  /* the string under iteration == str->termedBuf() */
@@ -26,14 +26,15 @@ size_t fq;            /* == spec_first_quote(cv_base, gi): offset of the first '
 /* ---- specification vocabulary (written from the comment above strListGetItem and RFC 7230 3.2.6, not from the body) ---- */
 static int is_ws(char c) { return c == ' ' || c == '\t' || c == '\n' || c == '\v' || c == '\f' || c == '\r'; }   /* isspace, C locale */
 static int is_sep(char c, char del) { return c == del || c == ','; }                  /* ',' is always a delimiter */
-/* "white space around 'del' is considered to be a part of 'del'": what is skipped in front of an item.
- * NOTE: \v and \f are whitespace for the right-trim (xisspace) but are NOT skipped in front of an item. */
-static int is_skip(char c, char del) { return is_sep(c, del) || c == ' ' || c == '\t' || c == '\r' || c == '\n'; }
+/* "white space around 'del' is considered to be a part of 'del'": what is skipped in front of an item = delimiters and every
+ * xisspace() byte (since /repo 156b97d the skip set and the right-trim agree; before, \v and \f were trimmed but not skipped and a
+ * member made only of them ended the walk early: recorded as fixed in known_findings.txt). */
+static int is_skip(char c, char del) { return is_sep(c, del) || is_ws(c); }
 
-/* c is one of the bytes of the C string set (at most 7 bytes + terminator in an 8-byte row) */
+/* c is one of the bytes of the C string set (at most 9 bytes + terminator in a 10-byte row) */
 static int spec_member(char c, const char *set)
 {
-    for (int k = 0; k < 8; k++) {
+    for (int k = 0; k < 10; k++) {
         if (set[k] == 0) return 0;
         if (set[k] == c) return 1;
     }
@@ -41,8 +42,9 @@ static int spec_member(char c, const char *set)
 }
 static int set_ok(const char *set)
 {
-    return __CPROVER_r_ok(set, 8) &&
-           (set[0] == 0 || set[1] == 0 || set[2] == 0 || set[3] == 0 || set[4] == 0 || set[5] == 0 || set[6] == 0 || set[7] == 0);
+    return __CPROVER_r_ok(set, 10) &&
+           (set[0] == 0 || set[1] == 0 || set[2] == 0 || set[3] == 0 || set[4] == 0 || set[5] == 0 || set[6] == 0 || set[7] == 0 ||
+            set[8] == 0 || set[9] == 0);
 }
 static size_t spec_first_quote(const char *b, size_t from, size_t len)
 {
@@ -58,11 +60,11 @@ static size_t spec_first_quote(const char *b, size_t from, size_t len)
 static int table_ok(void)
 {
     return cv_delim[0][0] == '"' && cv_delim[0][2] == ',' && cv_delim[0][3] == 0 && cv_delim[0][4] == 0 &&
-           cv_delim[0][5] == 0 && cv_delim[0][6] == 0 && cv_delim[0][7] == 0 &&
+           cv_delim[0][5] == 0 && cv_delim[0][6] == 0 && cv_delim[0][7] == 0 && cv_delim[0][8] == 0 && cv_delim[0][9] == 0 &&
            cv_delim[1][0] == '"' && cv_delim[1][1] == '\\' && cv_delim[1][2] == 0 && cv_delim[1][3] == 0 &&
-           cv_delim[1][4] == 0 && cv_delim[1][5] == 0 && cv_delim[1][6] == 0 && cv_delim[1][7] == 0 &&
+           cv_delim[1][4] == 0 && cv_delim[1][5] == 0 && cv_delim[1][6] == 0 && cv_delim[1][7] == 0 && cv_delim[1][8] == 0 && cv_delim[1][9] == 0 &&
            cv_delim[2][0] == ' ' && cv_delim[2][2] == ',' && cv_delim[2][3] == '\t' && cv_delim[2][4] == '\r' &&
-           cv_delim[2][5] == '\n' && cv_delim[2][6] == 0 && cv_delim[2][7] == 0;
+           cv_delim[2][5] == '\n' && cv_delim[2][6] == '\v' && cv_delim[2][7] == '\f' && cv_delim[2][8] == 0 && cv_delim[2][9] == 0;
 }
 
 /* the string invariant every contract below needs */
@@ -77,7 +79,7 @@ static int in_str(const char *p)
 }
 
 /* ======================= contracts of strspn / strcspn =======================
- * VERIFIED for the models in stubs.c (targets strspn_model, strcspn_model: every string position, every terminated 8-byte
+ * VERIFIED for the models in stubs.c (targets strspn_model, strcspn_model: every string position, every terminated 10-byte
  * set) and USED in place of the calls by the getitem_* targets.  Universal parts are stated for the ghost indices g and fq. */
 #if defined(T_SPN) || defined(T_CSPN) || defined(T_GETITEM)
 size_t strspn(const char *s, const char *accept)
@@ -112,7 +114,7 @@ __CPROVER_ensures(__CPROVER_return_value == 0 || s[__CPROVER_return_value] == 0)
 void h_model(void)
 {
     char m_buf[N];
-    char m_set[8];
+    char m_set[10];
     size_t len, off;
     __CPROVER_assume(len < N && off <= len);
     m_buf[len] = 0;
@@ -127,7 +129,7 @@ void h_model(void)
     __CPROVER_assert(!(r == 0), "reach: empty segment");
     __CPROVER_assert(!(r >= 3 && off + r == len), "reach: segment runs to the terminator");
     __CPROVER_assert(!(r >= 3 && off + r < len), "reach: segment stops inside the string");
-    __CPROVER_assert(!(r >= 1 && m_set[6] != 0), "reach: a set of seven bytes");
+    __CPROVER_assert(!(r >= 1 && m_set[8] != 0), "reach: a set of nine bytes");
     __CPROVER_assert(!(m_set[0] == 0 && off < len), "reach: empty set");
 #endif
 }
@@ -170,11 +172,10 @@ __CPROVER_ensures(is_ws(cv_base[IO + LEN]) || cv_base[IO + LEN] == 0 || is_sep(c
 __CPROVER_ensures(!(cv_base[IO + LEN] >= '0' && cv_base[IO + LEN] <= '9'))
 /* E6 strict progress: every caller loop `while (strListGetItem(...))` terminates */
 __CPROVER_ensures(R ==> (PO > SO && PO >= IO + LEN && LEN >= 1))
-/* E7 result 0: everything from the start position up to the stop byte is delimiter or whitespace, and the stop byte is
- *    the terminator -- OR the "item" consisted of whitespace only and began with \v or \f (which the leading skip does
- *    not remove but the right-trim does): then 0 is returned although the stop byte is a delimiter and more items may follow */
-__CPROVER_ensures(!R ==> ((SO <= g && g < PO) ==> (is_skip(cv_base[g], del) || is_ws(cv_base[g]))))
-__CPROVER_ensures(!R ==> (cv_base[PO] == 0 || cv_base[IO] == '\v' || cv_base[IO] == '\f'))
+/* E7 result 0 means END OF LIST: everything from the start position on is delimiter or whitespace and the stop byte is the
+ *    terminator (what every caller loop and the iterator models of the consumer units rely on) */
+__CPROVER_ensures(!R ==> ((SO <= g && g < PO) ==> is_skip(cv_base[g], del)))
+__CPROVER_ensures(!R ==> (cv_base[PO] == 0 && IO == PO))
 /* E8 quoting: a delimiter inside [io, po) has a '"' somewhere in front of it inside the item; i.e. an item without '"'
  *    contains neither del nor ',' */
 __CPROVER_ensures((IO == gi && IO <= g && g < PO && is_sep(cv_base[g], del)) ==> fq < g)
@@ -210,7 +211,7 @@ void h_getitem(void)
     __CPROVER_assert(!(r == 1 && ilen >= 3 && pos > item + ilen + 1), "reach: item was right-trimmed");
     __CPROVER_assert(!(r == 1 && ilen >= 3 && item > h_buf + 2 && fresh), "reach: leading delimiters skipped");
     __CPROVER_assert(!(r == 1 && pos == h_buf + len && len >= 4), "reach: scan ran to the terminator");
-    __CPROVER_assert(!(r == 0 && pos < h_buf + len), "reach: result 0 in front of the end of the string");
+    __CPROVER_assert(!(r == 0 && !fresh && so + 3 <= len && pos == h_buf + len), "reach: result 0 after skipping a tail of delimiters and whitespace");
 #endif
 }
 #endif
@@ -280,9 +281,7 @@ void h_walk(void)
         ENS(pos == buf + rp, "the position cookie equals the reference tokeniser's stop position");
         if (r && items > 0)
             ENS(io >= prev_end + 1, "successive items are separated by at least one byte");
-        /* What the callers (and the iterator models of the consumer units) rely on and the comment above the function
-         * promises: result 0 means END OF LIST.  The real function does NOT satisfy this (E7 of the getitem contract states
-         * what it does instead): KNOWN FINDING, see known_findings.txt -- "1,\v,2" yields 1, then result 0 at the second ','. */
+        /* result 0 means END OF LIST (regression guard for /repo 156b97d: "1,\\v,2" used to yield 1 and then result 0 at the second ',') */
         ENS(r != 0 || *pos == 0, "[end of list] result 0 is returned only at the terminator: nothing but delimiters and whitespace was left");
         if (!r) { ended = 1; break; }
         prev_end = io + n;
@@ -292,7 +291,7 @@ void h_walk(void)
     }
     ENS(ended, "the walk ends with result 0 after at most NB/2 + 1 calls");
     RCH(ended && items == 0 && buf[0] != 0, "non-empty string without items");
-    RCH(ended && items == 1 && buf[rp] != 0, "walk stopped in front of the terminator (\\v / \\f only item)");
+    RCH(ended && items == 2 && (buf[2] == '\v' || buf[2] == '\f'), "a \\v / \\f only member between two items is skipped");
 }
 #endif
 
@@ -347,14 +346,12 @@ void h_corners(void)
     s.buf_ = t8; c_pos = NULL; c_item = NULL;
     r = strListGetItem(&s, ',', &c_item, NULL, &c_pos);
     ENS(r == 1 && c_item == t8 + 1 && c_pos == t8 + 5, "corner 8: ilen == NULL");
-    /* 9. PINNED current behaviour (not demanded by any property): an item consisting only of \v / \f is not skipped in
-     *    front (the skip set is " \t\r\n" + delimiters) but is trimmed to nothing, so the walk reports the END OF THE LIST
-     *    in front of further items. */
-    char t9[] = "1,\v,2";
+    /* 9. regression (/repo 156b97d): a member made only of \v / \f is skipped like any other whitespace, the walk goes on */
+    char t9[] = "1,\v,2, \f";
     s.buf_ = t9; c_pos = NULL;
     r = step(&s, ','); ENS(r == 1 && ITEM_IS(t9, 0, 1), "corner 9: 1");
-    r = step(&s, ',');
-    __CPROVER_assert(r == 0 && c_pos == t9 + 3, "pinned: corner 9: \"1,\\v,2\": result 0 at the second ',' although the item 2 follows");
+    r = step(&s, ','); ENS(r == 1 && ITEM_IS(t9, 4, 1) && c_pos == t9 + 5, "corner 9: \"1,\\v,2\": the member 2 behind the \\v-only member is yielded");
+    r = step(&s, ','); ENS(r == 0 && c_pos == t9 + 8, "corner 9: end of list at the terminator");
     RCH(r == 0, "corner 9 done");
 }
 #endif
@@ -363,7 +360,7 @@ void h_corners(void)
 #ifdef T_TABLES_INIT
 void h_tables_init(void)
 {
-    __CPROVER_assert(table_ok(), "init: delimiter table = { \"\\\"?,\", \"\\\"\\\\\", \" ?,\\t\\r\\n\" } outside the two del slots");
+    __CPROVER_assert(table_ok(), "init: delimiter table = { \"\\\"?,\", \"\\\"\\\\\", \" ?,\\t\\r\\n\\v\\f\" } outside the two del slots");
     __CPROVER_assert(cv_delim[0][1] != 0 && cv_delim[2][1] != 0, "init: the del slots hold a non-NUL placeholder");
 }
 #endif
